@@ -47,7 +47,8 @@ META = dict(
                 "not compared. Trusted: TLC, tlaval parser, projection of floats to integers (harness/c04_probe.py)."),
     technique=("TLA+ operators over an uninterpreted derivative table + reference-stencil identities (C05.tla, C04Lib.tla); "
                "TLC exhaustive; spec states replayed into code; code observations (derivative table + operator output) "
-               "validated by TLC (C05Trace.tla)"),
+               "validated by TLC (C05Trace.tla); Apalache on the algebraic core (C05Core.tla: differences along different axes "
+               "commute, the identities cancel term by term, central differences exact on quadratics, unbounded)"),
     design_ref="DESIGN.md section 7 C05",
 )
 
@@ -655,6 +656,9 @@ def judge(ctx, traces):
 
 def run(ctx):
     df = core.import_library()
+    # the algebraic core (spec/C05Core.tla): Apalache discharges commutation / linearity / cancellation / exactness for unbounded integers
+    from .. import apalache
+    apalache.run_stage(ctx, module="C05Core.tla", obligations=apalache.C05_OBLIGATIONS, claim=apalache.C05_CLAIM)
     embs = embed.for_tier(ctx.tier, ctx.seed)
     dy = [e for e in embs if e.dyadic]
     r = ctx.model("MC_C05", f"C05_{ctx.tier}.cfg", dump=True)
